@@ -502,6 +502,82 @@ func init() {
 			c.Note("all sequences of 2 (thorough 3) messages over 8 boundary lengths x both kinds with rotating write paths on one connection, every writer configuration")
 		})
 	}
+	// a writer that has been closed stays closed: a late Close or Write on it has no effect on the message
+	// the next writer is building
+	for _, prop := range []string{"C13", "C14"} {
+		prop := prop
+		register(prop, "stale-writer", false, func(c *Ctx) {
+			var distinct, n int64
+			for _, cfg := range cfgs {
+				wb := cfg.wb
+				if wb == 0 {
+					wb = 4096
+				}
+				for _, l1 := range []int{0, 5, wb + 10} {
+					for _, l2 := range []int{2, 126, wb + 10, 2*(wb+9) + 2} {
+						for _, late := range []string{"close", "write", "write+close"} {
+							cfg := cfg
+							id := fmt.Sprintf("%s | stale writer: message text:%d closed, message binary:%d half written, then late %s on the first writer", cfg, l1, l2, late)
+							distinct++
+							c.Case(id, func() []string {
+								st := newFakeStream(nil)
+								conn := newWriterConn(cfg, st)
+								m1, m2 := wtMsg{false, wtPayload(l1, false)}, wtMsg{true, wtPayload(l2, true)}
+								w1, err := conn.NextWriter(wt.TextMessage)
+								if err != nil {
+									return []string{fmt.Sprintf("write-error[stale-writer]: %v (%s)", err, id)}
+								}
+								w1.Write(m1.Data)
+								if err := w1.Close(); err != nil {
+									return []string{fmt.Sprintf("write-error[stale-writer]: %v (%s)", err, id)}
+								}
+								w2, err := conn.NextWriter(wt.BinaryMessage)
+								if err != nil {
+									return []string{fmt.Sprintf("write-error[stale-writer]: %v (%s)", err, id)}
+								}
+								half := l2 / 2
+								w2.Write(m2.Data[:half])
+								var fails []string
+								cls := fmt.Sprintf("[stale-writer late=%s server=%v]", late, cfg.server)
+								if late != "close" {
+									if k, e := w1.Write([]byte("STALE")); e == nil {
+										fails = append(fails, fmt.Sprintf("stale-writer-accepted%s: Write on a closed writer accepted %d bytes (%s)", cls, k, id))
+									}
+								}
+								if late != "write" {
+									w1.Close() // (its result is not specified; its effect is: none)
+								}
+								if _, err := w2.Write(m2.Data[half:]); err != nil {
+									fails = append(fails, fmt.Sprintf("write-error%s: the current writer failed after a late call on the previous one: %v (%s)", cls, err, id))
+								}
+								if err := w2.Close(); err != nil {
+									fails = append(fails, fmt.Sprintf("write-error%s: closing the current writer failed after a late call on the previous one: %v (%s)", cls, err, id))
+								}
+								n++
+								if prop == "C14" {
+									want := append(wtEncode(m1, 0), wtEncode(m2, 0)...)
+									if !bytes.Equal(st.out, want) {
+										d := wtDecode(st.out)
+										fails = append(fails, fmt.Sprintf("wire-format%s: emitted frames %s tail=%s, expected one frame per message %s (%s)", cls, fmtWtMsgs(d.Msgs), d.Tail, fmtWtMsgs([]wtMsg{m1, m2}), id))
+									}
+									return fails
+								}
+								got, rerr, _, _ := wtReadAll(st.out, wtReadMode{api: "ReadMessage"}, 0)
+								if !wtMsgsEqual(got, []wtMsg{m1, m2}) {
+									fails = append(fails, fmt.Sprintf("round-trip%s: wrote %s, peer read %s then %v (%s)", cls, fmtWtMsgs([]wtMsg{m1, m2}), fmtWtMsgs(got), rerr, id))
+								}
+								return fails
+							})
+						}
+					}
+				}
+			}
+			c.Res.Distinct = distinct
+			c.Res.States += distinct
+			c.Res.Transitions += n
+			c.Note("message 1 written and closed, message 2 half written through the next writer, then a late Close / Write / both on the first writer, then message 2 completed: the peer reads exactly the two messages; every writer configuration x 3 x 4 lengths")
+		})
+	}
 	// two connections sharing one buffer pool: while the stream of the first is still inside Write (a slow
 	// stream: the bytes are consumed when the call completes), the second writes a message of its own
 	for _, prop := range []string{"C13", "C14"} {
